@@ -265,6 +265,44 @@ NextLine(r) ==
                                                  ![r.it].lastIn = r.item.inputs, ![r.it].rng = rf.st]
                            /\ UNCHANGED <<run, ct, skip, diag>>
 
+\* ---- static iteration (C15): try_iter_static succeeds exactly when the program reads no output; it then yields
+\* the inputs, expected values and lines of a run against a driver that never supplies anything
+EmptyAns == [k |-> "ok", outs |-> <<>>]
+
+TryIterStaticLine(r) ==
+  LET wantOk == ct.reads = {}
+  IN  IF r.res.k = "panic" THEN Flag("panic")
+      ELSE IF (r.res.k = "ok") # wantOk THEN Flag("static.accept")
+      ELSE /\ its' = (r.it :> [live |-> wantOk,
+                               it |-> IF wantOk THEN CtorFinish(ct, EmptyAns).it ELSE NewIt(ct),
+                               lastIn |-> DefaultInputs(ct), posterr |-> FALSE,
+                               rng |-> [hist |-> <<>>, pos |-> 0]]) @@ its
+           /\ UNCHANGED <<run, ct, skip, diag>>
+
+NextStaticLine(r) ==
+  LET e == its[r.it]
+      rs == [mode |-> "log", tape |-> r.rng]
+  IN
+  \E c \in {NextCall(ct, e.it, rs, 0)} :
+  IF r.item.k = "panic" THEN Flag("panic")
+  ELSE IF c.k = "none" THEN
+       IF r.item.k # "none" THEN Flag("static.rows")
+       ELSE /\ its' = [its EXCEPT ![r.it].it = c.it] /\ UNCHANGED <<run, ct, skip, diag>>
+  ELSE IF c.k = "err" THEN
+       IF c.err \in {"range", "unimpl", "tape", "tape_range"} THEN /\ skip' = TRUE /\ UNCHANGED <<run, ct, its, diag>>
+       ELSE IF r.item.k # "err" THEN Flag("static.rows")
+       ELSE /\ skip' = TRUE /\ UNCHANGED <<run, ct, its, diag>>
+  ELSE \E ret \in {NextReturn(ct, c.it, c.row, EmptyAns, rs, c.pos)} :
+       LET p == ret.item
+       IN  IF p.k = "err" THEN (IF r.item.k = "err" THEN /\ skip' = TRUE /\ UNCHANGED <<run, ct, its, diag>> ELSE Flag("static.rows"))
+           ELSE IF r.item.k # "row" THEN Flag("static.rows")
+           ELSE IF r.item.line # p.line THEN Flag("static.line")
+           ELSE IF ~SameSV(r.item.inputs, p.inputs) THEN Flag("static.rows")
+           ELSE IF Len(r.item.expected) # Len(p.outputs) THEN Flag("static.rows")
+           ELSE IF \E k \in DOMAIN p.outputs : r.item.expected[k].s # p.outputs[k].s \/ r.item.expected[k].v # p.outputs[k].exp
+                THEN Flag("static.rows")
+           ELSE /\ its' = [its EXCEPT ![r.it].it = ret.it] /\ UNCHANGED <<run, ct, skip, diag>>
+
 Step ==
   /\ l <= Len(Rec)
   /\ l' = l + 1
@@ -274,6 +312,10 @@ Step ==
          ELSE IF r.ev = "try_iter" THEN TryIterLine(r)
          ELSE IF r.ev = "next" THEN
                 IF r.it \in DOMAIN its /\ its[r.it].live THEN NextLine(r)
+                ELSE Flag("harness.dead")
+         ELSE IF r.ev = "try_iter_static" THEN TryIterStaticLine(r)
+         ELSE IF r.ev = "next_static" THEN
+                IF r.it \in DOMAIN its /\ its[r.it].live THEN NextStaticLine(r)
                 ELSE Flag("harness.dead")
          ELSE Flag("harness.event")
 
